@@ -5,6 +5,7 @@ mod ans;
 mod ans_replay;
 mod range;
 mod range_replay;
+mod models;
 
 fn main() {
     common::install_panic_hook();
@@ -16,9 +17,11 @@ fn main() {
     let seed: u64 = opt("--seed").and_then(|s| s.parse().ok()).unwrap_or(0);
     let n: u64 = opt("--n").and_then(|s| s.parse().ok()).unwrap_or(100);
     let cmd = args[1].clone();
+    *common::ABORT_FILE.lock().unwrap() = format!("{}.abort", out);
+    let skip: std::collections::HashSet<usize> = opt("--skip").map(|s| s.split(',').filter_map(|x| x.parse().ok()).collect()).unwrap_or_default();
     let mode = opt("--mode").unwrap_or_default();
     common::run_with_watchdog(&out, 30, move || match cmd.as_str() {
-        "replay" => ans_replay::replay_file(&input.expect("--in"), &mode),
+        "replay" => ans_replay::replay_file(&input.expect("--in"), &mode, &skip),
         _ => { eprintln!("unknown command {} (seed {}, n {})", cmd, seed, n); std::process::exit(2) }
     });
 }
